@@ -22,20 +22,26 @@ import sys
 import tempfile
 
 PID = "C16"
-RULE = ("a case is a module of 1-3 dataclasses rendered as source (leaf fields of type int/str/float/bool/List[int]/"
+RULE = ("a case is a module of 1-4 dataclasses rendered as source (leaf fields of type int/str/float/bool/List[int]/"
         "Optional[...]/Enum over the name alphabet {x,y,a,b,a_b,n,lr,lr_decay,a_b_c,w_x,...}, aliases incl. pairs of equal "
-        "length and underscore aliases, cmd=False fields, help from exactly one of help= / docstring below / comment "
-        "above / inline comment / nothing, nested members incl. the same class twice and member factories with keyword "
-        "overrides) registered at 1-3 destinations (same class at several destinations, user prefixes) x conflict "
-        "resolution AUTO/EXPLICIT/NONE x 3 dash variants x 3 generation modes x 2 nested modes x default sources "
-        "(definition, member factory, default instance, 0-2 config files given to the constructor or on the command "
-        "line). Each case runs in one fresh interpreter per PYTHONHASHSEED in {0,1,2,3} (thorough: 0..15 and 'random'). "
-        "For cases without config files the first interpreter also produces the help text repeatedly on ONE parser object "
-        "(print_help, format_help x2 / print_help, --help / --help, format_help / --help, parse, --help, print_help). "
-        "A systematic slice (one class, a_b / equal-length aliases x all dash/generation modes) comes first. In-process "
-        "unit cases compare the help column of one real field with the model. A few model-free cases show that the "
-        "fields of the selected subgroup are listed. Non-trivial = >= 2 exposed fields and at least one of: hidden "
-        "field, equal-length option strings, default from instance/file/member factory; distinct by canonical JSON.")
+        "length and underscore aliases, cmd=False / init=False fields, cmd=False nested MEMBERS, help from one (12%: two) of "
+        "help= / docstring below / comment above / inline comment, or none; nested members up to depth 4 incl. the same class "
+        "twice and member factories with keyword overrides; rarely a field or alias spelled h/help or a bool field next to a "
+        "field spelled like its negative flag) registered at 1-3 destinations (same class at several destinations, user "
+        "prefixes) x conflict resolution AUTO/EXPLICIT/NONE x 3 dash variants x 3 generation modes x 2 nested modes x default "
+        "sources (definition, member factory, default instance, 0-2 config files given to the constructor or on the command "
+        "line). Each case runs in one fresh interpreter per PYTHONHASHSEED in {0,1,2,3} (thorough: 0..15 and 'random'; "
+        "DESIGN's 0..31 was halved to stay inside the time budget). The first interpreter also: parses every listed option "
+        "string, every spelling of every hidden field, the empty command line (whose values the shown defaults are compared "
+        "with), and parses after print_help / format_help / --help / <config argv> --help on the same parser; for cases "
+        "without config files it produces the help text repeatedly on ONE parser object (4 sequences, 10 texts). Systematic "
+        "slices come first: one class with a_b / equal-length aliases x all dash/generation modes; option-clash shapes "
+        "(h, help, alias -h, flag/noflag, x/nox). Model-free streams: every 12th random case is ALWAYS_MERGE with one class at "
+        "2-3 destinations (oracle only); 7 subgroup cases (root / nested member / cmd=False field in the alternative / "
+        "non-default default key / config file for a sibling / BOTH+DASH spelling; default choice under every seed and "
+        "`--opt <key> --help` under every seed). In-process unit cases compare the help column of one real field with the "
+        "model. Non-trivial = >= 2 exposed fields and at least one of: hidden field, equal-length option strings, default from "
+        "instance/file/member factory; distinct by canonical JSON.")
 ASSUMPTIONS = [
     "argparse.HelpFormatter layout (not modelled): the real text is parsed back into groups/entries with COLUMNS=200; "
     "help texts and defaults are single-spaced printable ASCII without '%' (argparse %-expands and re-wraps help)",
@@ -44,31 +50,37 @@ ASSUMPTIONS = [
     "PYTHONHASHSEED is the only source of run-to-run variation of CPython's str hashing (each child gets a fixed or a "
     "'random' seed); the text of a case is compared across children, never against a stored golden text",
     "hidden-field spellings are generated so that they are not abbreviations of exposed options (argparse allow_abbrev)",
+    "config files never mention a cmd=False field or member (the real code then raises RuntimeError '... are not fields of'; "
+    "the model's fileDefault would silently ignore the key) and never say null",
+    "ALWAYS_MERGE and subgroups are outside the model (theorems with mode = always_merge only speak about the no-clash case): "
+    "both are covered by oracle-only cases",
 ]
 TRUSTED = ["stdlib argparse (HelpFormatter, option lookup)", "CPython inspect.getsource / importlib in the child interpreter",
            "harness expansion of the class list into per-destination trees and of nested default dicts into dotted paths"]
 EXHAUSTIVE = {"quick": False, "thorough": False}
 MANIFEST = {
     "text": ("Proof (partial) over a model of what --help lists: one entry per exposed field of every destination, in "
-             "wrapper pre-order, each with its option strings, metavar, effective default (config files > default "
-             "instance > member factory > definition) and help text. Theorems: entries are in position-wise bijection "
-             "with the exposed fields, each lists exactly its field's option strings and no string is listed twice "
-             "(complete); deleting every cmd=False/init=False field from the class trees changes nothing and no entry "
-             "belongs to such a field (hidden); default priority and help-column lemmas (accurate); the order of an "
-             "entry's option strings is a function of the declaration alone - stable sort by length of the generation "
-             "order, no hash-ordered container (reproducible, full since fix 4849cc7; the old set-based ordering is kept "
-             "as a refuted statement with witness a_b / --a-b and a proof that it only agreed without equal-length ties). "
-             "No side effect is PARTIAL: print_help() before a parse that names a config file on the command line freezes "
-             "the defaults before that file is applied (witness theorem; open finding C16-print-help-before-argv-config; "
-             "the constructor config_path= variant was repaired by fix e83a7f8 and stays as a regression case); "
-             "proved harmless without config files and subgroup fields. The text itself is checked by parsing the real "
-             "--help output of fresh interpreters under several PYTHONHASHSEEDs back into entries and comparing with the "
-             "model and with the property's clauses."),
+             "wrapper pre-order, each with its option strings (bool: plus negative flags), metavar, effective default (config "
+             "files > default instance > member factory > definition) and help text. PROVED for the model, all forests / "
+             "configurations / sources: entries are in position-wise bijection with the exposed fields and list exactly their "
+             "option strings (c16_complete); no listed string - negative flags included - belongs to two entries or is "
+             "-h/--help (c16_one_entry); outside ALWAYS_MERGE the help is produced or ConflictResolutionError is raised unless "
+             "an option string is already taken (c16_produced_partial; the unrestricted statement is refuted by a field h and "
+             "by flag/noflag - open findings); cmd=False / init=False fields and members (whole subtree) change nothing "
+             "(c16_hidden, c16_hidden_no_entry); the order of an entry's option strings is the stable length sort of the "
+             "generation order (c16_perm_invariant, c16_order_deterministic; the old set-based order is kept refuted); "
+             "print_help() and the --help flag leave later parses alone unless only one of the two command lines names a "
+             "config file (witnesses + partials; open finding) and can be repeated (c16_rehelp). These are laws of the model: "
+             "that the code skips hidden fields first, consults no hash-ordered container and formats without touching the "
+             "actions is SAMPLED by the correspondence check (fresh interpreters, 4/17 hash seeds, repeated help on one "
+             "parser). 'Accurate' is sampled twice: against the declared priority chain and, model-free, against what the real "
+             "empty parse returns."),
     "note": ("Trusted: Lean kernel + standard axioms; argparse formatter/lookup; the harness (source rendering, help-text "
              "parser, tree expansion). Modelled not verified: field_wrapper.py:231-258,565-659,711-790,888-905, "
-             "dataclass_wrapper.py:72-214,288-321, parsing.py:381-438,523-554, help_formatter.py, custom_actions.py:96-126 "
-             "(via Model/BoolFlag), conflicts.py (via Model/Conflicts). ALWAYS_MERGE, positional fields and group "
-             "descriptions are outside the model; subgroups are covered by model-free cases only."),
+             "dataclass_wrapper.py:72-214,288-321, parsing.py:281-406,540-580, help_formatter.py, custom_actions.py:96-126 "
+             "(via Model/BoolFlag), conflicts.py (via Model/Conflicts), argparse's add_argument conflict check. ALWAYS_MERGE, "
+             "subgroups (oracle-only cases), positional fields, group descriptions and desc_from_cls_docstring are outside "
+             "the model; the effective-default chain is not tied to Model/Layers/Defaults by a Lean lemma (sampled)."),
     "technique": "Lean 4 theorems over an entries model + fresh-interpreter differential check across hash seeds",
     "design_ref": "DESIGN.md section 5, C16",
 }
@@ -110,22 +122,24 @@ def build(extra=None):
         p.add_arguments(getattr(mod, r["cls"]), dest=r["dest"], prefix=r["prefix"], default=d)
     return p
 
-def flat(v, path, acc):
+def flat(v, path, acc, sacc=None):
     if dataclasses.is_dataclass(v) and not isinstance(v, type):
         for f in dataclasses.fields(v):
-            flat(getattr(v, f.name, None), path + [f.name], acc)
+            flat(getattr(v, f.name, None), path + [f.name], acc, sacc)
     else:
         acc[".".join(path)] = type(v).__name__ + ":" + (v.name if isinstance(v, enum.Enum) else repr(v))
+        if sacc is not None:
+            sacc[".".join(path)] = None if v is None else (v.name if isinstance(v, enum.Enum) else str(v))
 
 def run(fn):
     o, e = io.StringIO(), io.StringIO()
     with contextlib.redirect_stdout(o), contextlib.redirect_stderr(e):
         try:
             ns = fn()
-            acc = {}
+            acc, sacc = {}, {}
             for r in spec["regs"]:
-                flat(getattr(ns, r["dest"], None), [r["dest"]], acc)
-            res = {"o": "ok", "ns": acc}
+                flat(getattr(ns, r["dest"], None), [r["dest"]], acc, sacc)
+            res = {"o": "ok", "ns": acc, "nstr": sacc}
         except SystemExit as x:
             res = {"o": "exit", "code": x.code if isinstance(x.code, int) else (0 if x.code is None else 1)}
         except BaseException as x:
@@ -133,8 +147,8 @@ def run(fn):
     res["stdout"], res["stderr"] = o.getvalue(), e.getvalue()
     return res
 
-def slim(res):
-    r = {k: v for k, v in res.items() if k not in ("stdout", "stderr")}
+def slim(res, keep_nstr=False):
+    r = {k: v for k, v in res.items() if k not in ("stdout", "stderr") and (keep_nstr or k != "nstr")}
     if res["o"] == "exit":
         r["unrecognized"] = "unrecognized arguments" in res["stderr"]
         r["stdout_empty"] = not res["stdout"].strip()
@@ -185,7 +199,8 @@ try:
                 if a["required"] and a["dest"] in toks:
                     base += [a["opts"][0]] + toks[a["dest"]]["base"]
             b = run(lambda: build().parse_args(cfg_argv + base))
-            out["baseline"] = slim(b)
+            out["baseline"] = slim(b, True)
+            out["baseline_given"] = [a["dest"] for a in table["actions"] if a["required"] and a["dest"] in toks]
             def changed(res):
                 if res["o"] != "ok" or b["o"] != "ok":
                     return None
@@ -227,10 +242,16 @@ try:
                 p2 = build()
                 p2.format_help()
                 rec["after_format_help"] = slim(run(lambda: p2.parse_args(argv)))
-                if not spec["files"]:
-                    p3 = build()
-                    run(lambda: p3.parse_args(["--help"]))
-                    rec["after_dash_help"] = slim(run(lambda: p3.parse_args(argv)))
+                # the --help FLAG, caught, then the parse on the same parser: once with the flag alone and once on a
+                # command line that names the same config files as the later parse
+                p3 = build()
+                run(lambda: p3.parse_args(["--help"]))
+                rec["after_dash_help"] = slim(run(lambda: p3.parse_args(argv)))
+                if cfg_argv:
+                    p6 = build()
+                    run(lambda: p6.parse_args(cfg_argv + ["--help"]))
+                    rec["after_cfg_dash_help"] = slim(run(lambda: p6.parse_args(argv)))
+                if True:
                     p4 = build()
                     run(lambda: p4.parse_args(argv))
                     p4.print_help(file=io.StringIO())
@@ -258,6 +279,8 @@ try:
                 out["rehelp"] = {"seqs": seqs, "parse": slim(pr), "plain_parse": slim(run(lambda: build().parse_args(list(base))))}
     for extra in spec.get("extra_help", []):
         out.setdefault("extra_help", []).append(run(lambda: build().parse_args(extra)))
+    for extra in spec.get("extra_parse", []):
+        out.setdefault("extra_parse", []).append(slim(run(lambda: build().parse_args(extra))))
 finally:
     shutil.rmtree(tmp, ignore_errors=True)
 real_stdout.write(json.dumps(out))
@@ -327,20 +350,25 @@ def cls_map(c):
     return {k["name"]: k for k in c["classes"]}
 
 
-def walk_groups(c):
-    """wrappers in pre-order: [{cls, path, level, prefix, klass, over}]"""
+def walk_groups(c, include_hidden=False):
+    """wrappers in pre-order: [{cls, path, level, prefix, klass, over}].  A cmd=False MEMBER gets no wrapper, nor does
+    anything below it; with include_hidden those positions are listed too, marked under_hidden (for the spellings)."""
     cm = cls_map(c)
     out = []
 
-    def walk(cname, path, level, prefix, over):
+    def walk(cname, path, level, prefix, over, under_hidden):
         k = cm[cname]
-        out.append({"cls": cname, "path": path, "level": level, "prefix": prefix, "klass": k, "over": over})
+        out.append({"cls": cname, "path": path, "level": level, "prefix": prefix, "klass": k, "over": over,
+                    "under_hidden": under_hidden})
         for f in k["fields"]:
             if f["k"] == "dc":
-                walk(f["cls"], path + [f["name"]], level + 1, "", f.get("over") or {})
+                hid = under_hidden or f.get("cmd", True) is False
+                if hid and not include_hidden:
+                    continue
+                walk(f["cls"], path + [f["name"]], level + 1, "", f.get("over") or {}, hid)
 
     for r in c["regs"]:
-        walk(r["cls"], [r["dest"]], 1, r["prefix"], {})
+        walk(r["cls"], [r["dest"]], 1, r["prefix"], {}, False)
     return out
 
 
@@ -443,7 +471,7 @@ def render_module(c):
                     fac = f"functools.partial({f['cls']}, {kws})"
                 else:
                     fac = f["cls"]
-                L.append(f"    {f['name']}: {f['cls']} = field(default_factory={fac})")
+                L.append(f"    {f['name']}: {f['cls']} = field(default_factory={fac}" + (", cmd=False" if f.get("cmd", True) is False else "") + ")")
                 L.append("")
                 continue
             if f["k"] == "subgroups":
@@ -530,9 +558,9 @@ def hidden_spellings(c):
     """every way one could try to spell a cmd=False field on the command line"""
     out = []
     seen = set()
-    for g in walk_groups(c):
+    for g in walk_groups(c, include_hidden=True):
         for f in leaves_of(g):
-            if f.get("cmd", True):
+            if f.get("cmd", True) and not g["under_hidden"]:
                 continue
             names = [f["name"]] + [a.lstrip("-") for a in f.get("alias", [])]
             for n in names:
@@ -541,7 +569,7 @@ def hidden_spellings(c):
                 if g["prefix"]:
                     bodies.append(g["prefix"] + n)
                 for b in bodies:
-                    for v in {b, b.replace("_", "-")}:
+                    for v in sorted({b, b.replace("_", "-")}):
                         for d in ("--", "-"):
                             s = d + v
                             if s not in seen:
@@ -589,14 +617,16 @@ def _submit(case):
             "regs": [{"cls": r["cls"], "dest": r["dest"], "prefix": r["prefix"],
                       "inst": render_inst(c, r["cls"], r["inst"]) if r.get("inst") is not None else None}
                      for r in c["regs"]],
-            "tokens": probe_tokens(c), "hidden_argv": [h["argv"] for h in hidden_spellings(c)],
-            "side_dests": side_dests(c), "extra_help": c.get("extra_help", []),
-            "rehelp": case["op"] == "help.entries" and not c["files"]}
+            "tokens": {} if case["op"] == "help.merge" else probe_tokens(c),
+            "hidden_argv": [h["argv"] for h in hidden_spellings(c)],
+            "side_dests": [[]] if case["op"] == "help.merge" else side_dests(c), "extra_help": c.get("extra_help", []),
+            "extra_parse": c.get("extra_parse", []),
+            "rehelp": case["op"] in ("help.entries", "help.merge") and not c["files"]}
     futs = {}
     for i, seed in enumerate(c["seeds"]):
         s = dict(spec, do=["help", "table", "probes"] if i == 0 else ["help"])
         if i > 0:
-            s["extra_help"] = []
+            s["extra_parse"] = []
         futs[seed] = _pool().submit(_run_child, s, seed)
     return futs
 
@@ -693,6 +723,9 @@ def mk_leaf(rng, name, ty=None, mk=None, *, alias=None, cmd=True, required=False
     if mk is not None and r < 0.65:
         kind = rng.choice(HELP_KINDS)
         f["help"] = {kind: mk(kind, name)}
+        if r < 0.12:     # two documentation positions at once: FieldWrapper.help's precedence decides
+            k2 = rng.choice([k for k in HELP_KINDS if k != kind])
+            f["help"][k2] = mk(k2, name)
     return f
 
 
@@ -737,23 +770,41 @@ def slice_cases(seeds):
                       dict(CFG0, dash=dash), [], seeds)
 
 
+def clash_cases(seeds):
+    """an option string that is already taken: the built-in -h/--help, or the negative flag of a bool field"""
+    shapes = [
+        [_lf("h", "int", 3)], [_lf("help", "str", "q")], [_lf("hlp", "int", 3, alias=["-h"])],
+        [_lf("flag", "bool", False), _lf("noflag", "int", 0)], [_lf("nox", "str", "q"), _lf("x", "bool", True)],
+        [_lf("a_b", "bool", False), _lf("noa_b", "bool", False)],
+        [_lf("flag", "bool", False), _lf("n", "int", 0, alias=["--noflag"])],
+    ]
+    for fields in shapes:
+        yield mk_case([{"name": "K0", "doc": None, "fields": fields}], [{"cls": "K0", "dest": "a", "prefix": "", "inst": None}],
+                      CFG0, [], seeds)
+    # under NESTED generation the spellings differ (--a.noflag vs --a.noflag): still a clash; with a prefix none
+    yield mk_case([{"name": "K0", "doc": None, "fields": shapes[3]}], [{"cls": "K0", "dest": "a", "prefix": "", "inst": None}],
+                  dict(CFG0, gen="NESTED"), [], seeds)
+    yield mk_case([{"name": "K0", "doc": None, "fields": shapes[0]}], [{"cls": "K0", "dest": "a", "prefix": "p_", "inst": None}],
+                  CFG0, [], seeds)
+
+
 def random_case(rng, seeds):
     mk = Mk()
-    n_cls = rng.choice([1, 1, 2, 2, 3])
+    n_cls = rng.choice([1, 1, 2, 2, 3, 3, 4])
     classes = []
     alias_sets = rng.sample(ALIAS_SETS, len(ALIAS_SETS))
     for ci in range(n_cls):
         names = rng.sample(NAMES, rng.randint(1, 4))
         fields = []
         for nm in names:
-            if classes and rng.random() < 0.4:
-                sub = rng.choice(classes)
+            if classes and rng.random() < 0.45:
+                sub = rng.choice(classes[-2:])
                 over = {}
                 cand = [f for f in sub["fields"] if f["k"] == "leaf" and is_exposed(f)]
                 if cand and rng.random() < 0.4:
                     f0 = rng.choice(cand)
                     over[f0["name"]] = rng.choice([v for v in POOL[f0["ty"]]])
-                fields.append({"k": "dc", "name": nm, "cls": sub["name"], "over": over})
+                fields.append({"k": "dc", "name": nm, "cls": sub["name"], "over": over, "cmd": rng.random() >= 0.15})
             else:
                 al = alias_sets.pop() if (alias_sets and rng.random() < 0.3) else []
                 fields.append(mk_leaf(rng, nm, mk=mk, alias=al))
@@ -766,6 +817,18 @@ def random_case(rng, seeds):
             f = mk_leaf(rng, "ni", "int", mk=mk)
             f["init"] = False
             fields.append(f)
+        have = {f["name"] for f in fields}
+        r = rng.random()
+        if r < 0.04 and "h" not in have:
+            # a field (or alias) spelled like the built-in -h/--help (open finding C16-help-clash)
+            fields.append(mk_leaf(rng, rng.choice(["h", "help"]), "int", mk=mk) if rng.random() < 0.7
+                          else mk_leaf(rng, "hlp", "int", mk=mk, alias=[rng.choice(["-h", "--help"])]))
+        elif r < 0.10 and not ({"flag", "noflag", "x", "nox"} & have):
+            # a bool field next to a field spelled like its negative flag (open finding C16-negflag-clash)
+            a_, b_ = rng.choice([("flag", "noflag"), ("x", "nox")])
+            pair = [mk_leaf(rng, a_, "bool", mk=mk), mk_leaf(rng, b_, rng.choice(["int", "str", "bool"]), mk=mk)]
+            rng.shuffle(pair)
+            fields.extend(pair)
         classes.append({"name": f"K{ci}", "doc": f"Doc of K{ci}." if rng.random() < 0.6 else None, "fields": fields})
     nreg = rng.choice([1, 1, 2, 2, 3])
     dests = rng.sample(DESTS, nreg)
@@ -798,7 +861,7 @@ def random_case(rng, seeds):
         kw = {}
         for f in cm[cname]["fields"]:
             if f["k"] == "dc":
-                if rng.random() < p:
+                if f.get("cmd", True) and rng.random() < p:     # (a config file must not mention a cmd=False member)
                     kw[f["name"]] = rand_kwargs(f["cls"], p)
             elif (f["name"] in force) or (is_exposed(f) and rng.random() < p):
                 kw[f["name"]] = rng.choice(POOL[f["ty"]])
@@ -827,7 +890,7 @@ def random_case(rng, seeds):
         cfg = dict(CFG0, dash=rng.choice(["UNDERSCORE", "UNDERSCORE_AND_DASH", "UNDERSCORE_AND_DASH", "DASH"]))
     else:
         from harness.core import sp
-        cfg = {"cr": rng.choice(["AUTO", "AUTO", "AUTO", "EXPLICIT", "NONE"]), "dash": rng.choice(sp.ALL_DASH),
+        cfg = {"cr": rng.choice(["AUTO", "EXPLICIT", "NONE"]), "dash": rng.choice(sp.ALL_DASH),
                "gen": rng.choice(sp.ALL_GEN), "nest": rng.choice(sp.ALL_NEST)}
     return mk_case(classes, regs, cfg, files, seeds)
 
@@ -845,21 +908,85 @@ def _json_safe(kw):
     return out
 
 
+def _lf(name, ty, v, **kw):
+    return dict({"k": "leaf", "name": name, "ty": ty, "alias": [], "cmd": True, "init": True, "default": {"v": v}}, **kw)
+
+
+def subgroup_classes(default_key="sa"):
+    la = {"name": "SA", "doc": "Alt A.", "fields": [_lf("lr", "float", 0.5, help={"explicit": "rate of A"})]}
+    lb = {"name": "SB", "doc": "Alt B.", "fields": [_lf("mom_b", "float", 2.0, help={"inline": "momentum of B"}),
+                                                    _lf("zsec", "int", 1, cmd=False)]}
+    top = {"name": "Top", "doc": "Top.", "fields": [{"k": "subgroups", "name": "opt", "alts": {"sa": "SA", "sb": "SB"},
+                                                    "default_key": default_key}, _lf("n", "int", 1)]}
+    outer = {"name": "Outer", "doc": "Outer.", "fields": [{"k": "dc", "name": "inner", "cls": "Top", "over": {}}, _lf("k", "int", 2)]}
+    return la, lb, top, outer
+
+
+EXP_A = {"present": ["--lr", "--opt"], "absent": ["--mom_b", "--zsec"],
+         "entries": {"--lr": {"help": "rate of A", "default": "0.5"}}}
+EXP_B = {"present": ["--mom_b", "--opt"], "absent": ["--lr", "--zsec"],
+         "entries": {"--mom_b": {"help": "momentum of B", "default": "2.0"}}}
+
+
 def subgroup_cases(seeds):
-    """model-free: the fields of the selected subgroup are listed (default choice and explicit choice)"""
-    la = {"name": "SA", "doc": "Alt A.", "fields": [{"k": "leaf", "name": "lr", "ty": "float", "alias": [], "cmd": True, "init": True,
-                                                    "default": {"v": 0.5}, "help": {"explicit": "rate of A"}}]}
-    lb = {"name": "SB", "doc": "Alt B.", "fields": [{"k": "leaf", "name": "mom_b", "ty": "float", "alias": [], "cmd": True, "init": True,
-                                                    "default": {"v": 2.0}, "help": {"inline": "momentum of B"}}]}
-    top = {"name": "Top", "doc": "Top.", "fields": [{"k": "subgroups", "name": "opt", "alts": {"sa": "SA", "sb": "SB"}, "default_key": "sa"},
-                                                  {"k": "leaf", "name": "n", "ty": "int", "alias": [], "cmd": True, "init": True,
-                                                   "default": {"v": 1}}]}
-    for dash in ("UNDERSCORE", "UNDERSCORE_AND_DASH"):
-        c = mk_case([la, lb, top], [{"cls": "Top", "dest": "cfg", "prefix": "", "inst": None}], dict(CFG0, dash=dash), [], seeds,
-                    op="help.subgroup")
+    """model-free: the fields of the currently selected subgroup are listed - default choice and explicit choice, at the
+    root and inside a nested member, with a cmd=False field in the alternative, with a config file for a sibling field"""
+    la, lb, top, outer = subgroup_classes()
+    _, _, top_b, _ = subgroup_classes("sb")
+
+    def mk(classes, root, cfg, files, default, extra, extra_exp, extra_parse):
+        c = mk_case(classes, [{"cls": root, "dest": "cfg", "prefix": "", "inst": None}], cfg, files, seeds, op="help.subgroup")
         c["model"] = False
-        c["case"]["extra_help"] = [["--opt", "sb", "--help"]]
-        yield c
+        c["case"]["extra_help"] = extra
+        c["case"]["extra_parse"] = extra_parse
+        c["case"]["expect"] = {"default": default, "extra": extra_exp, "extra_parse_rejected": len(extra_parse)}
+        return c
+
+    hidden_try = [["--opt", "sb", "--zsec", "6"], ["--opt", "sb", "--cfg.opt.zsec", "6"], ["--opt", "sb", "--opt.zsec=6"]]
+    for dash in ("UNDERSCORE", "UNDERSCORE_AND_DASH"):
+        yield mk([la, lb, top], "Top", dict(CFG0, dash=dash), [], dict(EXP_A, present=EXP_A["present"] + ["--n"]),
+                 [["--opt", "sb", "--help"]], [EXP_B], hidden_try)
+    yield mk([la, lb, top, outer], "Outer", CFG0, [], dict(EXP_A, present=EXP_A["present"] + ["--n", "--k"]),
+             [["--opt", "sb", "--help"], ["--opt", "sa", "--help"]], [dict(EXP_B, present=EXP_B["present"] + ["--k"]), EXP_A], hidden_try)
+    yield mk([la, lb, top_b], "Top", CFG0, [], EXP_B, [["--opt", "sa", "--help"]], [EXP_A], [])
+    yield mk([la, lb, top], "Top", CFG0, [{"via": "ctor", "data": {"cfg": {"n": 5}}}],
+             dict(EXP_A, entries=dict(EXP_A["entries"], **{"--n": {"help": "", "default": "5"}})),
+             [["--opt", "sb", "--help"]], [dict(EXP_B, entries=dict(EXP_B["entries"], **{"--n": {"help": "", "default": "5"}}))], [])
+    yield mk([la, lb, top], "Top", dict(CFG0, gen="BOTH", dash="DASH"), [],
+             {"present": ["--lr", "--cfg.opt.lr", "--opt"], "absent": ["--mom-b"], "entries": {"--lr": {"help": "rate of A", "default": "0.5"}}},
+             [["--opt", "sb", "--help"]], [{"present": ["--mom-b", "--cfg.opt.mom-b"], "absent": ["--lr", "--zsec"],
+                                            "entries": {"--mom-b": {"help": "momentum of B", "default": "2.0"}}}], [])
+
+
+MERGE_TYPES = ["int", "int", "str", "float", "listInt", "bool"]
+MERGE_NAMES = ["x", "y", "a_b", "n", "lr", "lr_decay", "w_x", "v1", "k"]
+
+
+def merge_case(rng, seeds):
+    """oracle-only: ALWAYS_MERGE with the same class at 2-3 destinations (one shared option per field)"""
+    mk = Mk()
+    names = rng.sample(MERGE_NAMES, rng.randint(2, 4))
+    inner = [mk_leaf(rng, nm, rng.choice(MERGE_TYPES), mk=mk, alias=(["--yy", "--zz"] if i == 0 and rng.random() < 0.3 else []))
+             for i, nm in enumerate(names)]
+    if rng.random() < 0.5:
+        inner.insert(rng.randint(0, len(inner)), mk_leaf(rng, rng.choice(HIDDEN_NAMES), "int", mk=mk, cmd=False))
+    classes = [{"name": "K0", "doc": "Doc of K0." if rng.random() < 0.6 else None, "fields": inner}]
+    root = "K0"
+    if rng.random() < 0.5:
+        over = {}
+        f0 = rng.choice([f for f in inner if is_exposed(f)])
+        if rng.random() < 0.5:
+            over[f0["name"]] = rng.choice(POOL[f0["ty"]])
+        outer = [mk_leaf(rng, "top_" + rng.choice(["p", "q"]), rng.choice(MERGE_TYPES), mk=mk),
+                 {"k": "dc", "name": "m", "cls": "K0", "over": over, "cmd": True}]
+        classes.append({"name": "K1", "doc": "Doc of K1.", "fields": outer})
+        root = "K1"
+    dests = rng.sample(DESTS, rng.choice([2, 2, 3]))
+    regs = [{"cls": root, "dest": d, "prefix": "", "inst": None} for d in dests]
+    c = mk_case(classes, regs, dict(CFG0, cr="ALWAYS_MERGE", dash=rng.choice(["UNDERSCORE", "UNDERSCORE_AND_DASH", "DASH"])), [], seeds,
+                op="help.merge")
+    c["model"] = False
+    return c
 
 
 UNIT_HELPS = ["", "h", "some help text", "x (y)", "ends with colon:", "(default: 3)"]
@@ -880,9 +1007,11 @@ def gen(rng, tier):
         yield _prefetch(c)
     for c in subgroup_cases(seeds):
         yield _prefetch(c)
-    n = int(os.environ.get("VERIF_C16_N", "0")) or (100 if tier == "quick" else 900)   # VERIF_C16_N: development override
-    for _ in range(n):
-        yield _prefetch(random_case(rng, seeds))
+    for c in clash_cases(seeds):
+        yield _prefetch(c)
+    n = int(os.environ.get("VERIF_C16_N", "0")) or (200 if tier == "quick" else 900)   # VERIF_C16_N: development override
+    for i in range(n):
+        yield _prefetch(merge_case(rng, seeds) if i % 12 == 11 else random_case(rng, seeds))
     yield from unit_cases(rng, 30 if tier == "quick" else 60)
 
 
@@ -966,7 +1095,15 @@ def impl(case):
         obs["rehelp"] = {"n_texts": sum(len(t) for t in first["rehelp"]["seqs"].values()), "bad": bad,
                          "parse": first["rehelp"]["parse"], "plain_parse": first["rehelp"]["plain_parse"]}
     if first.get("extra_help"):
-        obs["extra_help"] = [{"o": h["o"], "code": h.get("code"), "parsed": parse_help(h["stdout"])} for h in first["extra_help"]]
+        obs["extra_help"] = [{"o": h["o"], "code": h.get("code"), "exc": h.get("exc"), "parsed": parse_help(h["stdout"]),
+                              "distinct_texts": len({res[s_]["extra_help"][i]["stdout"] for s_ in c["seeds"]
+                                                     if len(res[s_].get("extra_help", [])) > i})}
+                             for i, h in enumerate(first["extra_help"])]
+    if first.get("extra_parse"):
+        obs["extra_parse"] = first["extra_parse"]
+    if "baseline_given" in first:
+        obs["baseline_given"] = first["baseline_given"]
+    obs["stderr_nonempty"] = any(not h["stderr_empty"] for h in obs["help"].values())
     return obs
 
 
@@ -980,7 +1117,7 @@ def tree_of(c, g_cls, name, over):
     leaves, kids = [], []
     for f in k["fields"]:
         if f["k"] == "dc":
-            kids.append(tree_of(c, f["cls"], f["name"], f.get("over") or {}))
+            kids.append(dict(tree_of(c, f["cls"], f["name"], f.get("over") or {}), cmd=f.get("cmd", True)))
         else:
             h = f.get("help") or {}
             ty = {"k": "enum", "cls": "Color"} if f["ty"] == "enum" else {"k": f["ty"]}
@@ -1056,10 +1193,31 @@ def project_model(case, mo):
 def expected_groups(c):
     out = []
     for g in walk_groups(c):
-        out.append({"cls": g["cls"], "dest": ".".join(g["path"]), "g": g,
+        out.append({"cls": g["cls"], "dest": ".".join(g["path"]), "dests": [".".join(g["path"])], "g": g,
                     "exposed": [f for f in leaves_of(g) if is_exposed(f)],
                     "hidden": [f for f in leaves_of(g) if not is_exposed(f)]})
     return out
+
+
+def expected_groups_merged(c):
+    """ALWAYS_MERGE, the same class at every destination: one group per position in the class tree, titled with all
+    destinations"""
+    first = c["regs"][0]
+    one = dict(c, regs=[first])
+    out = []
+    for g in walk_groups(one):
+        rel = g["path"][1:]
+        out.append({"cls": g["cls"], "dest": ".".join(g["path"]), "dests": [".".join([r["dest"]] + rel) for r in c["regs"]], "g": g,
+                    "exposed": [f for f in leaves_of(g) if is_exposed(f)],
+                    "hidden": [f for f in leaves_of(g) if not is_exposed(f)]})
+    return out
+
+
+def hidden_leaf_dests(c):
+    """destinations of every leaf that must not be reachable: cmd=False / init=False leaves and everything below a
+    cmd=False member"""
+    return {".".join(g["path"] + [f["name"]]) for g in walk_groups(c, include_hidden=True) for f in leaves_of(g)
+            if g["under_hidden"] or not is_exposed(f)}
 
 
 def oracle(case, obs):
@@ -1073,9 +1231,9 @@ def oracle(case, obs):
             return fails
         return [{"clause": "exit0-stdout", "detail": f"--help cannot be produced: setting up the parser raises "
                                                      f"{obs['table']['exc']}: {obs['table'].get('msg')}"}]
-    # 1. exit status 0, text on stdout, nothing on stderr — in every interpreter
+    # 1. exit status 0, text on stdout — in every interpreter (what else goes to stderr is only tagged)
     for s, h in obs["help"].items():
-        if not (h["o"] == "exit" and h["code"] == 0 and not h["stdout_empty"] and h["stderr_empty"]):
+        if not (h["o"] == "exit" and h["code"] == 0 and not h["stdout_empty"]):
             fails.append({"clause": "exit0-stdout", "detail": f"PYTHONHASHSEED={s}: --help gave {h}"})
     if not obs["texts"]:
         return fails
@@ -1090,7 +1248,10 @@ def oracle(case, obs):
                                                           f"first differing lines: {diff}"})
     if case["op"] == "help.subgroup":
         return fails + oracle_subgroup(c, obs)
-    exp = expected_groups(c)
+    merged = case["op"] == "help.merge"
+    exp = expected_groups_merged(c) if merged else expected_groups(c)
+    base_ns = obs.get("baseline") if (obs.get("baseline") or {}).get("o") == "ok" else None
+    given = set(obs.get("baseline_given", []))
     actions = {a["dest"]: a for a in obs["table"]["actions"]}
     accepted = {}
     for o, d in obs["table"]["optmap"].items():
@@ -1102,45 +1263,70 @@ def oracle(case, obs):
         shown_groups = {(g["cls"], tuple(g["dests"])): g for g in fg}
         if len(shown_groups) != len(fg):
             fails.append({"clause": "complete", "detail": "two groups with the same title"})
-        n_expected_groups = 0
+        optmap = obs["table"]["optmap"]
         for eg in exp:
-            g = shown_groups.get((eg["cls"], (eg["dest"],)))
+            g = shown_groups.get((eg["cls"], tuple(eg["dests"])))
             if not eg["exposed"]:
                 if g is not None and g["entries"]:
-                    fails.append({"clause": "hidden", "detail": f"group {eg['cls']} [{eg['dest']}] has no exposed field but lists "
+                    fails.append({"clause": "hidden", "detail": f"group {eg['cls']} {eg['dests']} has no exposed field but lists "
                                                                 f"{[e['opts'] for e in g['entries']]}"})
                 continue
-            n_expected_groups += 1
             if g is None:
-                fails.append({"clause": "complete", "detail": f"no group for {eg['cls']} at {eg['dest']} (text {ti})"})
+                fails.append({"clause": "complete", "detail": f"no group for {eg['cls']} at {eg['dests']} (text {ti})"})
                 continue
             if len(g["entries"]) != len(eg["exposed"]):
                 clause = "hidden" if len(g["entries"]) > len(eg["exposed"]) else "complete"
-                fails.append({"clause": clause, "detail": f"group {eg['cls']} [{eg['dest']}]: {len(eg['exposed'])} exposed fields "
+                fails.append({"clause": clause, "detail": f"group {eg['cls']} {eg['dests']}: {len(eg['exposed'])} exposed fields "
                                                           f"{[f['name'] for f in eg['exposed']]} but {len(g['entries'])} entries "
                                                           f"{[e['opts'] for e in g['entries']]}"})
                 continue
-            for f, e in zip(eg["exposed"], g["entries"]):
+            # which field an entry belongs to is decided by the parser's own option table, not by its position
+            by_dest = {}
+            for e in g["entries"]:
+                by_dest.setdefault(optmap.get(e["opts"][0]), []).append(e)
+            for f in eg["exposed"]:
                 dest = eg["dest"] + "." + f["name"]
+                es_ = by_dest.get(dest, [])
+                if len(es_) != 1:
+                    fails.append({"clause": "complete", "field": dest,
+                                  "detail": f"{dest}: {len(es_)} entries in group {eg['cls']} {eg['dests']} "
+                                            f"(entries: {[e['opts'] for e in g['entries']]})"})
+                    continue
+                e = es_[0]
                 acc = accepted.get(dest, set())
-                if not acc:
-                    fails.append({"clause": "complete", "detail": f"exposed field {dest} has no action"})
                 if set(e["opts"]) != acc:
                     fails.append({"clause": "complete", "field": dest,
                                   "detail": f"{dest}: accepted option strings {sorted(acc)} but the entry shows {e['opts']}"})
-                want = expected_default(c, eg["g"], f)
                 got = e["default"] if e["default_shown"] else None
-                if (want is None and got not in (None, "None")) or (want is not None and got != want):
-                    fails.append({"clause": "accurate-default", "field": dest,
-                                  "detail": f"{dest}: effective default {want!r} but the entry shows {got!r} ({e['col']!r})"})
+                if merged:
+                    if base_ns is not None:
+                        vals = [base_ns["ns"].get(d + "." + f["name"], "?:?").split(":", 1)[1] for d in eg["dests"]]
+                        want = None if all(v == "None" for v in vals) else "[" + ", ".join(vals) + "]"
+                        if (want is None and got not in (None, "None")) or (want is not None and got != want):
+                            fails.append({"clause": "accurate-default", "field": dest,
+                                          "detail": f"{dest}: an empty parse gives {vals} at {eg['dests']} but the entry shows {got!r}"})
+                else:
+                    want = expected_default(c, eg["g"], f)
+                    if (want is None and got not in (None, "None")) or (want is not None and got != want):
+                        fails.append({"clause": "accurate-default", "field": dest,
+                                      "detail": f"{dest}: effective default {want!r} but the entry shows {got!r} ({e['col']!r})"})
+                    # model-free: the shown default is what a parse of the empty command line really returns
+                    if base_ns is not None and dest not in given and dest in base_ns["nstr"]:
+                        real = base_ns["nstr"][dest]
+                        if (real is None and got not in (None, "None")) or (real is not None and got != real):
+                            fails.append({"clause": "default-vs-empty-parse", "field": dest,
+                                          "detail": f"{dest}: a parse without this option returns {real!r} but the entry shows {got!r}"})
                 srcs = help_sources(f)
                 if len(srcs) == 1 and e["help"] != srcs[0]:
                     fails.append({"clause": "accurate-help", "field": dest,
                                   "detail": f"{dest}: help text {srcs[0]!r} but the entry shows {e['help']!r}"})
+                if len(srcs) > 1 and e["help"] not in srcs:
+                    fails.append({"clause": "accurate-help", "field": dest,
+                                  "detail": f"{dest}: documented by {srcs!r} but the entry shows {e['help']!r}"})
                 if not srcs and e["help"]:
                     fails.append({"clause": "accurate-help", "field": dest,
                                   "detail": f"{dest}: undocumented field shows help {e['help']!r}"})
-        extra = [t for t in shown_groups if t not in {(eg["cls"], (eg["dest"],)) for eg in exp}]
+        extra = [t for t in shown_groups if t not in {(eg["cls"], tuple(eg["dests"])) for eg in exp}]
         if extra:
             fails.append({"clause": "hidden", "detail": f"groups that belong to no destination: {extra}"})
     # every shown/accepted option string really addresses exactly that field (one real parse per option string)
@@ -1151,13 +1337,15 @@ def oracle(case, obs):
             fails.append({"clause": "complete", "field": pr["dest"],
                           "detail": f"option string {pr['opt']} of {pr['dest']} is listed but a parse with it gives {pr}"})
     # 3. cmd=False fields: no action, no entry (counted above), every spelling rejected
-    hidden_dests = {eg["dest"] + "." + f["name"] for eg in exp for f in eg["hidden"]}
+    hidden_dests = hidden_leaf_dests(c)
     for d in hidden_dests:
         if d in actions:
             fails.append({"clause": "hidden", "detail": f"hidden field {d} has an action {actions[d]['opts']}"})
     all_opts = set(obs["table"]["optmap"])
     for h, spell in zip(obs.get("hidden", []), hidden_spellings(c)):
         word = spell["argv"][0].split("=")[0]
+        if word in all_opts:
+            continue  # the very same spelling belongs to an exposed field (e.g. the same class is also an exposed member)
         if any(o.startswith(word) for o in all_opts if o.startswith("--")) and word.startswith("--"):
             continue  # an abbreviation of an exposed option: argparse accepts it for THAT option
         rejected = h["o"] == "exit" and h["code"] == 2
@@ -1168,7 +1356,7 @@ def oracle(case, obs):
                                                         f"(exit status 2): {h}"})
     # 4. producing the help changes nothing about later parsing
     for rec in obs.get("side", []):
-        for variant in ("after_print_help", "after_format_help", "after_dash_help"):
+        for variant in ("after_print_help", "after_format_help", "after_dash_help", "after_cfg_dash_help"):
             if variant in rec and not same_outcome(rec[variant], rec["plain"]):
                 fails.append({"clause": "no-side-effect", "variant": variant, "argv": rec["argv"],
                               "detail": f"parse {rec['argv']} {variant}: {diff_ns(rec['plain'], rec[variant])}"})
@@ -1201,24 +1389,34 @@ def diff_ns(a, b):
 
 
 def oracle_subgroup(c, obs):
-    """default choice sa: SA's field is listed, SB's is not; `--opt sb --help`: the other way round"""
+    """the listing of the default choice (every interpreter) and of each explicit `--opt <key> --help`"""
     fails = []
 
-    def listed(parsed):
-        return {o for g in parsed["groups"] for e in g["entries"] for o in e["opts"]}
+    def check(tag, parsed, ex):
+        entries = {o: e for g in parsed["groups"] for e in g["entries"] for o in e["opts"]}
+        miss = [o for o in ex["present"] if o not in entries]
+        bad = [o for o in ex["absent"] if o in entries]
+        if miss or bad:
+            fails.append({"clause": "subgroup", "detail": f"{tag}: options {miss} are not listed / {bad} are listed; listed: {sorted(entries)}"})
+        for o, want in ex.get("entries", {}).items():
+            e = entries.get(o)
+            if e is not None and (e["help"] != want["help"] or e["default"] != want["default"]):
+                fails.append({"clause": "subgroup", "detail": f"{tag}: entry of {o} shows help {e['help']!r} default {e['default']!r}, "
+                                                              f"expected {want}"})
 
+    ex = c["expect"]
     for p in obs["parsed"]:
-        L = listed(p)
-        if "--lr" not in L or "--mom_b" in L or "--opt" not in L or not ({"-n", "--n"} & L):
-            fails.append({"clause": "subgroup", "detail": f"default subgroup sa: listed options {sorted(L)}"})
-    for h in obs.get("extra_help", []):
-        L = listed(h["parsed"])
-        if not (h["o"] == "exit" and h["code"] == 0) or "--mom_b" not in L or "--lr" in L:
-            fails.append({"clause": "subgroup", "detail": f"--opt sb --help: {h['o']} {h['code']} listed options {sorted(L)}"})
-        else:
-            e = [e for g in h["parsed"]["groups"] for e in g["entries"] if "--mom_b" in e["opts"]][0]
-            if e["help"] != "momentum of B" or e["default"] != "2.0":
-                fails.append({"clause": "subgroup", "detail": f"--opt sb --help: entry of mom_b is {e}"})
+        check("default choice", p, ex["default"])
+    for argv, h, want in zip(c["extra_help"], obs.get("extra_help", []), ex["extra"]):
+        if not (h["o"] == "exit" and h["code"] == 0):
+            fails.append({"clause": "subgroup", "detail": f"{argv}: {h['o']} {h['code']} {h.get('exc')}"})
+            continue
+        if h["distinct_texts"] != 1:
+            fails.append({"clause": "reproducible", "detail": f"{argv}: {h['distinct_texts']} different texts across interpreters"})
+        check(str(argv), h["parsed"], want)
+    for argv, r in zip(c.get("extra_parse", []), obs.get("extra_parse", [])):
+        if not (r["o"] == "exit" and r["code"] == 2):
+            fails.append({"clause": "hidden", "detail": f"{argv} (a cmd=False field of the selected subgroup) was not rejected: {r}"})
     return fails
 
 
@@ -1252,7 +1450,10 @@ def tags(case, obs):
          f"regs:{len(c['regs'])}", f"classes:{len(c['classes'])}", f"seeds:{len(c['seeds'])}"]
     if obs["table"]["o"] == "raise":
         return t + ["out:" + str(obs["table"]["exc"])]
-    exp = expected_groups(c) if case["op"] == "help.entries" else []
+    exp = expected_groups(c) if case["op"] == "help.entries" else (expected_groups_merged(c) if case["op"] == "help.merge" else [])
+    t += [f"stderr-nonempty:{obs.get('stderr_nonempty', False)}",
+          f"hidden-member:{any(f['k'] == 'dc' and f.get('cmd', True) is False for k in c['classes'] for f in k['fields'])}",
+          f"two-help-sources:{any(len(help_sources(f)) > 1 for eg in exp for f in eg['exposed'])}"]
     t += ["out:ok", f"texts:{len(obs['texts'])}", f"equal-length-options:{has_equal_len(obs)}",
           f"hidden:{any(eg['hidden'] for eg in exp)}", f"files:{len(c['files'])}" + (":" + c["files"][0]["via"] if c["files"] else ""),
           f"inst:{any(r.get('inst') for r in c['regs'])}", f"member-override:{any(eg['g']['over'] for eg in exp)}",
@@ -1319,7 +1520,8 @@ def _print_help_before_config(case, obs, fail, via="ctor"):
     (or a required field the files provide is demanded).  via="ctor": files given as ArgumentParser(config_path=...);
     via="argv": files named by --config_path on the later command line."""
     c = case["case"]
-    if fail.get("clause") != "no-side-effect" or fail.get("variant") != "after_print_help" or not c["files"]:
+    variants = ("after_print_help", "after_dash_help") if via == "argv" else ("after_print_help",)
+    if fail.get("clause") != "no-side-effect" or fail.get("variant") not in variants or not c["files"]:
         return False
     if {fl["via"] for fl in c["files"]} != {via}:
         return False
@@ -1329,7 +1531,7 @@ def _print_help_before_config(case, obs, fail, via="ctor"):
     mentioned = set()
     for fl in c["files"]:
         mentioned |= {k for k, _ in flatten_data(c, fl["data"])}
-    w = rec["after_print_help"]
+    w = rec[fail["variant"]]
     if w.get("o") == "ok":
         d = diff_ns(rec["plain"], w)
         return bool(d) and set(d) <= mentioned
@@ -1338,4 +1540,51 @@ def _print_help_before_config(case, obs, fail, via="ctor"):
     return w.get("o") == "exit" and w.get("code") == 2 and "required" in w.get("stderr_tail", "") and bool(required & mentioned)
 
 
-FINDINGS = {"C16-print-help-before-argv-config": lambda case, obs, fail: _print_help_before_config(case, obs, fail, via="argv")}
+def _clash_string(obs, fail):
+    if fail.get("clause") != "exit0-stdout" or obs["table"]["o"] != "raise" or obs["table"]["exc"] != "ArgumentError":
+        return None
+    m = re.search(r"conflicting option strings?: ([^\s,]+)", obs["table"].get("msg") or "")
+    return m.group(1) if m else None
+
+
+def _leaf_spellings(case, only_bool=False):
+    out = set()
+    for k in case["case"]["classes"]:
+        for f in k["fields"]:
+            if f["k"] == "leaf" and is_exposed(f) and (f["ty"] == "bool" or not only_bool):
+                for n in [f["name"]] + [a.lstrip("-") for a in f.get("alias", [])]:
+                    out |= {n, n.replace("_", "-")}
+    return out
+
+
+def _help_clash(case, obs, fail):
+    """a field or alias spelled h / help: add_argument raises ArgumentError 'conflicting option string: -h' (or --help)
+    in the middle of _preprocessing - conflicts.py:144 TODO #49, the root of C03-help-clash"""
+    s_ = _clash_string(obs, fail)
+    return s_ in ("-h", "--help") and bool(_leaf_spellings(case) & {"h", "help"})
+
+
+def _negflag_clash(case, obs, fail):
+    """the negative flag of a bool field (--no<name>, under any prefix) is already taken by, or taken before, another
+    field: the conflict resolver never looks at negative flags, add_argument raises ArgumentError"""
+    s_ = _clash_string(obs, fail)
+    if not s_:
+        return False
+    last = s_.lstrip("-").split(".")[-1]
+    bools = _leaf_spellings(case, only_bool=True)
+    return any(last.startswith("no") and last.endswith(b) and len(last) >= len(b) + 2 for b in bools)
+
+
+def _subgroup_choice_from_config(case, obs, fail):
+    """a config file that mentions a subgroup field: _resolve_subgroups asserts that the argparse default is still the
+    declared subgroup default (parsing.py, `assert argument_options["default"] is subgroup_field.subgroup_default`)"""
+    c = case["case"]
+    if fail.get("clause") != "exit0-stdout" or obs["table"]["o"] != "raise" or obs["table"]["exc"] != "AssertionError":
+        return False
+    sub = {f["name"] for k in c["classes"] for f in k["fields"] if f["k"] == "subgroups"}
+    return any(f'"{n}"' in canon(fl["data"]) for fl in c["files"] for n in sub)
+
+
+FINDINGS = {"C16-print-help-before-argv-config": lambda case, obs, fail: _print_help_before_config(case, obs, fail, via="argv"),
+            "C16-help-clash": _help_clash, "C16-negflag-clash": _negflag_clash,
+            "C16-subgroup-choice-from-config": _subgroup_choice_from_config}
